@@ -5,7 +5,8 @@ BLANK blocks, stray rows; blocks separated by a blank line or by nothing) read t
     parse_blocks(rows)      read_csv(StringIO(text), sep)      read_excel(workbook written with openpyxl)
 x to in {pdtable, jsondata, cellgrid} x tracker in {default (raising), collecting} x fixer in {none, lenient / custom
 instance, ParseFixer class, lenient subclass; a fresh one per read} x a predicate drawn as a random
-subset of the observed (type, name) pairs, wrapped in a recorder.
+subset of the observed (type, name) pairs, wrapped in a recorder, answering with a bool / numpy.bool_ / 1-0 /
+re.Match-None / str / list (the truth value of the answer decides).
 
 Oracle (no Lean model involved), per case:
   frame   U  = the unfiltered read of the same source with a collecting tracker: one event per block, in order
@@ -65,6 +66,26 @@ FIXERS = [None, None, None, "lenient", "lenient", "custom", "class_strict", "cla
 MODEL_FIXER = {None: "strict", "class_strict": "strict", "lenient": "lenient", "class_lenient": "lenient",
                "custom": "custom"}
 DUP_NAMES = [["x", "x"], ["a", "b", "a"], ["a", "a", "a"], ["x", "x_fixed_000", "x"], ["b", "x", "x", "b"]]
+
+
+VERDICTS = ["bool", "bool", "bool", "numpy", "int", "match", "str", "list"]
+
+
+def verdict(kind, accept):
+    """the predicate's answer in one of the forms callers use: what counts is its truth value"""
+    import re
+    import numpy
+    if kind == "numpy":
+        return numpy.True_ if accept else numpy.False_
+    if kind == "int":
+        return 1 if accept else 0
+    if kind == "match":
+        return re.match("k", "keep") if accept else None
+    if kind == "str":
+        return "yes" if accept else ""
+    if kind == "list":
+        return [0] if accept else []
+    return bool(accept)
 
 
 def fixer_arg(kind):
@@ -418,9 +439,13 @@ def one_case(rng, out, seed, idx, tmp, ops, pend, model_ok):
     p = bc.py_filter(spec)
     rec = []
 
+    vk = rng.choice(VERDICTS)
+    out.count("verdict_type:" + vk)
+    case["verdict_type"] = vk
+
     def pred(bt, name):
         rec.append((bt.name, name))
-        return p(bt, name)
+        return verdict(vk, p(bt, name))
 
     F = run_read(src, to, pred, tracker, fx)
     rec_f = list(rec)
